@@ -9,9 +9,8 @@ def unsafe_decode(string):
       "{} does not represent a valid integer".format(repr(string)))
 
 def decode(string):
-  value = unsafe_decode(string)
-  validate_decoded(value)
-  return value
+  validate_encoded(string)
+  return int(string)
 
 def validate_decoded(integer):
   if integer < 0:
